@@ -5,33 +5,33 @@
  * Hash stub.  qhashmurmur3_32 (verified on its own in C18) is replaced inside these queries by
  * vf_hash(): an ARBITRARY function from keys to 32-bit values, given as a table vfin.HT of
  * solver-chosen words indexed by an injective code of (length, every key byte) over the symbolic
- * alphabet A = { m^0, .., m^4 } (m = vfin.amask, a solver-chosen byte >= 8: five non-zero byte values
- * that differ in their low three bits; a fully free alphabet costs 10x in solver time.  Bytes outside
- * the alphabet / other lengths share extra entries).  So every
- * collision pattern (same slot, same full hash, different slots) is explored for every key set,
- * and a change to which bytes/length the table passes to its hash changes the stub's answer.
+ * alphabet A = { m^0, .., m^4 } (m = vfin.amask, a solver-chosen byte >= 8: five non-zero byte
+ * values that differ in their low three bits; a fully free alphabet costs 10x in solver time).
+ * Bytes outside the alphabet and other lengths share one extra entry each.  So every collision
+ * pattern (same slot, same full hash, different slots) is explored for every key set, and a change
+ * to which bytes/length the table passes to its hash changes the stub's answer.
  *
  * Pre-state.  Real constructor qhashtbl(VF_R, opts); VF_N = VF_C0+..+VF_C3 nodes linked by hand:
  * slot s holds a chain of VF_Cs nodes (per-query constants: the pointer structure is fixed, the
- * driver enumerates every composition of n over the R slots).  Node keys: distinct NUL-terminated
- * strings, length 1..2 symbolic, key i = letter i + optional symbolic second letter (distinct by
- * construction.  This loses no behaviour: the table uses a stored name only through strlen/strcmp==0
- * against the argument/strdup and through the hash, which is arbitrary here, so it is equivariant
- * under every length-preserving renaming of keys, and each orbit contains such a state; the
- * operation key and the probe key are unconstrained: any length, any letters, so they hit any node,
- * share a prefix with one, or are fresh.  Pairwise-distinctness over free names makes 4-node queries
- * 15x slower), each in an exactly sized heap block; values
- * 1..3 symbolic bytes of symbolic size in exactly sized heap blocks; node->hash == vf_hash(key)
- * and ASSUMED congruent to its slot (hash % R == slot).  Chain order inside a slot is by node
- * index, which loses nothing because node contents are symmetric (all symbolic).  Every such
- * state is reachable: put() inserts at the chain head, so putting the keys of a slot in reverse
- * chain order yields any chain order; slots are independent.
+ * driver enumerates every composition of n over the R slots).  Node keys: NUL-terminated strings of
+ * symbolic length 1..2 in exactly sized heap blocks; key i = letter i + optional symbolic second
+ * letter, i.e. distinct by construction.  That loses no behaviour: the table uses a stored name only
+ * through strcmp()==0 against the argument, strlen/strdup, and through the hash, which is arbitrary
+ * here; so it is equivariant under every length-preserving renaming of keys, and each orbit contains
+ * such a state.  (Pairwise-distinctness assumptions over free names make 4-node queries 15x slower.)
+ * The operation key and the probe key are unconstrained: any length, any letters, so they hit any
+ * node, share a prefix with one, or are fresh.  Values: 1..3 symbolic bytes of symbolic size in
+ * exactly sized heap blocks.  node->hash == vf_hash(key), ASSUMED congruent to its slot
+ * (hash % R == slot).  Chain order inside a slot is by node index, which loses nothing because node
+ * contents are symmetric.  Every such state is reachable: put() inserts at the chain head, so
+ * putting the keys of a slot in reverse chain order yields any chain order; slots are independent.
  *
- * Operation VF_OP with symbolic key (may or may not be present: head/middle/tail of a chain or
- * absent, all decided by the solver), value, flags.
+ * Operation VF_OP with symbolic key (present at the head/middle/tail of a chain, or absent: decided
+ * by the solver), value, flags.
  * Post.  Ideal map (ghost arrays) equations: an independent walker over slots/chains establishes
- * table == ghost (count, num, slot of hash, no duplicate keys, names, sizes, bytes), and after a
- * mutation a universally quantified probe key is read back through the real get().
+ * table == ghost (count, num, slot of hash, no duplicate keys, names, sizes, bytes); with -DVF_PROBE
+ * a universally quantified probe key is additionally read back through the real get() after a
+ * mutation (implied by induction: walker + the GET queries from every valid state).
  */
 #include "vf.h"
 #include "stubs.h"
